@@ -267,7 +267,8 @@ def _constructive(rng, A, heavy, multi, L, low=()):
                 if rng.random() < 0.15 and cur > 0:
                     cands = list(range(0, cur))          # any earlier atom, other fragments included
                 w += ring_to(cur, rng.choice(cands))
-            elif cur is not None and t < pr + pb and depth < maxdepth and branches:
+            elif cur is not None and t < pr + pb and depth < maxdepth and branches and state["n"] < 1200:
+                # (the atom cap keeps deep nesting from growing into a bushy tree of exponential size)
                 inner = body(rng.randint(1, 6) if rng.random() < 0.85 else rng.randint(17, 40), depth + 1, roots + [cur])
                 q = len(inner) - 1
                 if inner and q <= 15 and idx[q] is not None:
@@ -708,6 +709,11 @@ class Verifier:
                     if p != ("ok", norm(self.presets[n])):
                         out.append(Violation("preset_eq_pristine", idx, {"name": n, "got": p}))
                 self._alphabet(out, idx, a, model, ask, probe)
+            elif k == "alpha_decode" and r[0] == "err":
+                # the op as a whole did not return (per-op alarm).  String generation and decoding share
+                # that op, so this cannot be told apart from a slow generator: a harness error (exit 2,
+                # never a pass), not a violation
+                raise RuntimeError("alpha_decode op did not return within its time limit: %r" % (r[:3],))
             elif k == "alpha_decode":
                 a, singles, outs = r[1]
                 self._alphabet(out, idx, a, model, ask, probe)
